@@ -247,7 +247,44 @@ Fixpoint exec_C (root : path) (gs : list group) (d : fs) : fs * outcome :=
 (* ------------------------------------------------------------------------------------------ *)
 (* the data of one leaf: does it pass the shape checks of its function (decided by the generator
    of the data, compared with what the implementation does), and its value id *)
-Record tbl := { t_ok : bool; t_val : val }.
+(* The data of one leaf as the update functions see it after np.array(..., np.float64): the shape of every
+   array, in the order the function converts them.  Whether the leaf passes the function's shape
+   checks is decided HERE, by the same comparisons as the source. *)
+Definition shape := list Z.
+Inductive dkind :=
+| DTable2     (* ne, te, rate      : atomic.py:224-236, radiated_power.py:221-233, pec.py:183-196 *)
+| DTable3     (* ne, te, td, rate  : pec.py:272-288 *)
+| DPairs      (* eb,qeb, ti,qti, ni,qni, z,qz, b,qb : beam/cx.py:107-121 sanitise_and_validate, called at 171-175 *)
+| DBeam       (* e, n, t, sen, st  : beam/stopping.py:62-83, beam/population.py:66-87, beam/emission.py:118-138 *)
+| DScalar.    (* float(wavelength) : wavelength.py:95, no check *)
+Record tbl := { t_kind : dkind; t_shapes : list shape; t_val : val }.
+
+Definition is1d (s : shape) : bool := match s with [_] => true | _ => false end.     (* x.ndim != 1 *)
+Fixpoint shape_eqb (a b : shape) : bool :=
+  match a, b with
+  | [], [] => true
+  | x :: a', y :: b' => (x =? y) && shape_eqb a' b'
+  | _, _ => false
+  end.
+Definition dim0 (s : shape) : Z := match s with x :: _ => x | [] => 0 end.           (* x.shape[0] *)
+Fixpoint pairs_ok (l : list shape) : bool :=
+  match l with
+  | [] => true
+  | x :: y :: rest => is1d x && is1d y && shape_eqb x y && pairs_ok rest
+  | _ => false
+  end.
+Definition t_ok (t : tbl) : bool :=
+  match t_kind t, t_shapes t with
+  | DTable2, [ne; te; r] => is1d ne && is1d te && shape_eqb r [dim0 ne; dim0 te]
+  | DTable3, [ne; te; td; r] => is1d ne && is1d te && is1d td && shape_eqb r [dim0 ne; dim0 te; dim0 td]
+  | DPairs, [_; _; _; _; _; _; _; _; _; _] as l => pairs_ok l
+  | DBeam, [e; n; t'; sen; st] => is1d e && is1d n && is1d t' && shape_eqb sen [dim0 e; dim0 n] && shape_eqb t' st
+  | DScalar, [] => true
+  | _, _ => false
+  end.
+(* a leaf that passes / fails whatever the family (used in examples) *)
+Definition leaf_ok (v : val) : tbl := {| t_kind := DScalar; t_shapes := []; t_val := v |}.
+Definition leaf_bad (v : val) : tbl := {| t_kind := DScalar; t_shapes := [[]]; t_val := v |}.
 
 Definition dict (K V : Type) := list (K * V).
 
